@@ -457,8 +457,6 @@ def classify(thunk, d: str, m, meta, open_ids) -> str | None:
         return "C09-N3"
     if "C04-D12" in open_ids and pred_c04d12(m, d):
         return "C04-D12"
-    if "C04-D14" in open_ids and "raised" in d and D14_MARK in d:
-        return "C04-D14"
     if "C04-D7" in open_ids and "with overridden initializer-inputs" in d:
         orig_rules = rw._DEFAULT_REWRITE_RULES
         rw._DEFAULT_REWRITE_RULES = tuple(r for r in orig_rules if getattr(r, "name", None) not in R.GUARDED_RULES)
@@ -826,6 +824,7 @@ R.WITNESSES["C04-D14"] = (w_c04d14, "C04-D14")
 
 
 def clip_chain_stream(run: core.Run, stats: Counter, open_ids):
+    """C04-D14 is fixed by c0ccb25: every member must pass (84 calls); `pred_c04d14` is kept as a diagnostic only."""
     failures = []
     for kind in CLIP_CHAINS:
         for pre in ("none", "neg"):
@@ -842,9 +841,6 @@ def clip_chain_stream(run: core.Run, stats: Counter, open_ids):
                     if not d:
                         stats["family_pass_clipchain"] += 1
                         continue
-                    if "C04-D14" in open_ids and " raised " in d and pred_c04d14(api, m, opts):
-                        stats["known_C04-D14_in_stream"] += 1
-                        continue
                     failures.append(({"family": f"clipchain_{kind}_{pre}_{'typed' if annotated else 'untyped'}", "model_b64": R.b64(m), "api": api, "opts": opts}, d))
     return failures
 
@@ -860,3 +856,9 @@ def judge_chain(m, api, opts, rng) -> str | None:
     feeds = [{"x": np.array(v, dtype=dt)} for v in ([-5, 2, 9], [1, 3, 4], [0, -1, 100])]
     sd = L.semantic_diff(m, m2, feeds, must_run=True)
     return f"{api}({opts}) changes what the model computes: {sd}" if sd else None
+
+
+def pred_c04d15(desc: dict, detail: str) -> bool:
+    """C04-D15, exactly: rewrite with the user rule Identity(x) -> x, the match in an If branch with x a value of the enclosing
+    graph (both pass-through variants), and the call does not return within the watchdog."""
+    return desc.get("kind") == "ident" and desc.get("where") in ("then", "else") and "did not return" in detail
